@@ -42,6 +42,26 @@ Theorem C18_upload_eq_download : forall (info : rid -> rinfo) ops st, wf info ->
 Proof. exact upload_eq_download. Qed.
 Print Assumptions C18_upload_eq_download.
 
+(** PythonJob.call(f, *args, **kwargs) = [call_ops j args result]: every resource REACHABLE in the arguments (nested at any
+    depth in lists / tuples / dict values, [reach]) that belongs to another job has all its files among the inputs of the
+    calling job, each downloaded from where its producer uploads it, and the caller is a child of the producer —
+    for every program around the call. *)
+Theorem C18_call_argument_becomes_input : forall (info : rid -> rinfo) pre j args res post st r p,
+  run_ops info (init) (pre ++ call_ops j args res ++ post) = inl st ->
+  In r (flat_map reach args) -> r_src (info r) = Some p -> p <> j ->
+  incl (expand info false r) (inputs (st j)).
+Proof. exact call_argument_becomes_input. Qed.
+Print Assumptions C18_call_argument_becomes_input.
+
+Theorem C18_call_argument_downloaded : forall (info : rid -> rinfo) pre j args res post st r p f,
+  wf info -> run_ops info (init) (pre ++ call_ops j args res ++ post) = inl st ->
+  In r (flat_map reach args) -> r_src (info r) = Some p -> p <> j -> In f (expand info false r) ->
+  In ((RemoteTmp, f), (LocalTmp, f)) (job_input_files info (st j)) /\
+  In ((LocalTmp, f), (RemoteTmp, f)) (job_output_files (st p)) /\
+  In p (job_parents (st j)).
+Proof. exact call_argument_downloaded. Qed.
+Print Assumptions C18_call_argument_downloaded.
+
 (** With the token recorded (fixes/C18.diff), job tokens are pairwise distinct for EVERY output of the random generator. *)
 Theorem C18_job_tokens_distinct : forall n used stream,
   NoDup (alloc_tokens n used stream) /\ forall t, In t (alloc_tokens n used stream) -> ~ In t used.
